@@ -248,8 +248,9 @@ def write_if_changed(path, text):
     return False
 
 
-def lake_build(targets):
-    with Lock("lake"):
+def lake_build(targets, lockname="lake"):
+    # builds of disjoint targets may run concurrently; one lock per property keeps a property's own runs apart
+    with Lock(lockname):
         t0 = time.time()
         p = run(["lake", "build"] + list(targets), cwd=LEAN)
         log(f"lake build {' '.join(targets)}: rc={p.returncode} in {time.time()-t0:.1f}s")
@@ -308,8 +309,7 @@ def audit(pid, modules, theorems):
     src = "".join(f"import {m}\n" for m in modules) + "".join(f"#print axioms {t}\n" for t in theorems)
     with open(path, "w") as f:
         f.write(src)
-    with Lock("lake"):
-        p = run(["lake", "env", "lean", path], cwd=LEAN)
+    p = run(["lake", "env", "lean", path], cwd=LEAN)
     out = p.stdout + p.stderr
     res = {}
     # messages look like: 'X' depends on axioms: [a, b]   or   'X' does not depend on any axioms
@@ -331,8 +331,7 @@ def audit(pid, modules, theorems):
 def leanchecker(modules):
     bad = []
     for m in modules:
-        with Lock("lake"):
-            p = run(["lake", "env", "leanchecker", m], cwd=LEAN, timeout=1800)
+        p = run(["lake", "env", "leanchecker", m], cwd=LEAN, timeout=1800)
         if p.returncode != 0:
             bad.append(f"{m}: {(p.stdout + p.stderr)[-500:]}")
     return bad
